@@ -305,3 +305,25 @@ def cls(name: str) -> Any:
 
         return ASTNode
     return getattr(load(), name)
+
+
+def warm(order: str) -> None:
+    """first use of every class in a chosen order ("bases": table order, bases before subclasses;
+    "subs": the reverse). pyoak generates per-class accessors on first use, so the order in which
+    the classes of a hierarchy are used first is part of the history every property quantifies over;
+    shards alternate between the orders (and no warm-up at all)."""
+    if order not in ("bases", "subs"):
+        return
+    names = CLASS_NAMES if order == "bases" else list(reversed(CLASS_NAMES))
+    for name in names:
+        c = cls(name)
+        kw = {}
+        if name == "Uni":
+            kw["one"] = cls("LeafB")(v=9)
+        if name == "Seq":
+            kw["pair"] = (cls("LeafA")(v=9), cls("LeafB")(v=9))
+        n = c(**kw)
+        list(n.get_properties())
+        list(n.get_child_nodes())
+        list(n.get_child_nodes_with_field())
+        list(n.iter_child_fields())
